@@ -496,3 +496,70 @@ Section DeltaBounds.
     apply Qle_bool_iff. apply Qle_bool_iff in B2. lra.
   Qed.
 End DeltaBounds.
+
+(* ====================================================================== *)
+(* 5. grouped for Properties/C12.v                                          *)
+(* ====================================================================== *)
+(* bisect + the search, generic *)
+Lemma G_bounds_search_sound :
+  (forall (f : Q -> Q) (tol low high : Q) (fuel : nat), (forall s t : Q, s == t -> f s == f t) ->
+     match bisect f low high tol fuel with
+     | BisRet x found => (- tol <= f x /\ f x <= tol) /\ found = true
+     | BisPanic => qsign (f low) = qsign (f high)
+     | BisFuel => True
+     end) /\
+  (forall F : Q -> Q, (forall a b : Q, a <= b -> F a <= F b) ->
+   forall (b : bconf) (fuel : nat) (xs : list Q),
+     match b with
+     | BNone => True
+     | BLower m => F m == 0
+     | BUpper M => F M == 1
+     | BBoth m M => F m == 0 /\ F M == 1
+     | BBad => False
+     end ->
+     bounds_search F b fuel xs <> BrPanic /\
+     forall lo hi : Q, bounds_search F b fuel xs = BrOk lo hi ->
+       kde_bounds_ok b (XFin lo) (XFin hi) (F hi - F lo) = true /\
+       F lo <= 6 # 1000 /\ 994 # 1000 <= F hi).
+Proof.
+  split.
+  - intros f tol low high fuel C. apply bisect_sound. exact C.
+  - intros F Mo b fuel xs Hb. apply bounds_search_sound; assumption.
+Qed.
+
+(* the model's KDEs *)
+Lemma G_bounds_search_kde :
+  (forall k : kde, kde_ok k -> k_kernel k = KEpan -> bounds_ok k -> forall fuel : nat,
+     kde_bounds_search k fuel <> BrPanic /\
+     forall lo hi : Q, kde_bounds_search k fuel = BrOk lo hi ->
+       exists clo chi : Q, kde_cdf k lo = Some (XFin clo) /\ kde_cdf k hi = Some (XFin chi) /\
+         kde_bounds_ok (k_b k) (XFin lo) (XFin hi) (chi - clo) = true) /\
+  (forall k : kde, kde_ok_delta k -> k_kernel k = KDelta -> bounds_ok_delta k -> forall fuel : nat,
+     kde_bounds_search k fuel <> BrPanic /\
+     forall lo hi : Q, kde_bounds_search k fuel = BrOk lo hi ->
+       (exists clo chi : Q, kde_cdf k lo = Some (XFin clo) /\ kde_cdf k hi = Some (XFin chi) /\
+          kde_bounds_ok (k_b k) (XFin lo) (XFin hi) (chi - clo) = true) /\
+       kde_bounds_ok (k_b k) (XFin lo) (XFin hi) (delta_mass_in (k_xs k) (k_ws k) lo hi) = true).
+Proof.
+  split.
+  - intros k ok kern bok fuel. apply kde_bounds_search_epan; assumption.
+  - intros k ok kern bok fuel. destruct (kde_bounds_search_delta k ok kern bok fuel) as [NP S].
+    split; [exact NP|]. intros lo hi H. split; [apply S; exact H|].
+    apply (kde_bounds_search_delta_mass k ok kern bok fuel lo hi H).
+Qed.
+
+(* the KDEs of the non-vacuity Examples: sample {0,1,2}, h = 1 *)
+Definition ex_bk (kn : kernel) (b : bconf) : kde := mkKde [0; 1; 2] None kn 1 b.
+(* weights 5 : 990 : 5 put the jumps of the delta kernel's CDF exactly on 0.005 and 0.995 *)
+Definition ex_bk_w : kde := mkKde [0; 1; 2] (Some [5; 990; 5]) KDelta 1 BNone.
+(* for the Examples: the search returns an interval and the acceptance test, fed with the
+   model's own CDF values at its ends, accepts it *)
+Definition search_accepted (k : kde) (fuel : nat) : bool :=
+  match kde_bounds_search k fuel with
+  | BrOk lo hi =>
+      match kde_cdf k lo, kde_cdf k hi with
+      | Some (XFin a), Some (XFin b) => kde_bounds_ok (k_b k) (XFin lo) (XFin hi) (b - a)
+      | _, _ => false
+      end
+  | _ => false
+  end.
